@@ -1375,6 +1375,235 @@ def pca_designs(ck):
     ck.trust.append("expected projectors for the design oracles come from numpy.linalg.svd with an explicit rank truncation (1e-9 relative)")
 
 
+# ============================================================ input classes: dtypes, layouts, magnitudes, collection sizes
+def _layouts(arr, rng):
+    """The same values in other memory layouts / dtypes are produced by the callers; here: layouts of one array."""
+    out = [("C", np.ascontiguousarray(arr)), ("F", np.asfortranarray(arr))]
+    big = np.zeros(tuple(2 * s for s in arr.shape), arr.dtype)
+    view = big[tuple(slice(None, None, 2) for _ in arr.shape)]
+    view[...] = arr
+    out.append(("strided-view", view))
+    rev = np.ascontiguousarray(arr[::-1])[::-1]
+    out.append(("negative-stride", rev))
+    if arr.ndim >= 2:
+        out.append(("transposed-base", np.ascontiguousarray(arr.swapaxes(0, -1)).swapaxes(0, -1)))
+    return out
+
+
+def input_classes(ck):
+    """Results must not depend on the dtype / memory layout of the inputs (beyond the precision of a float32 input), on the
+    magnitude of integer data, or on the number of masks in a collection: every routine is compared with the same call on a
+    C-contiguous float64 copy and with the stated semantics in exact integer arithmetic."""
+    from nipy.algorithms.utils.pca import pca
+    from nipy.labs import mask as nm
+    from nipy.core.api import Image, AffineTransform
+    rng = ck.rng("input-classes")
+    # ------------------------------------------------------------ pca
+    n_pca = 0
+    for ci in range(ck.n(12, 60)):
+        nd = 2 + ci % 3
+        npts = int(rng.integers(4, 7))
+        shape = [int(rng.integers(2, 5)) for _ in range(nd)]
+        axis_pos = ci % nd
+        shape[axis_pos] = npts
+        while int(np.prod(shape)) // npts < npts + 2:
+            k = (axis_pos + 1) % nd
+            shape[k] += 1
+        shape = tuple(shape)
+        base = rng.integers(-3000, 3000, size=shape)
+        vshape = shape[:axis_pos] + shape[axis_pos + 1:]
+        mbase = rng.random(vshape) < 0.7
+        mbase.reshape(-1)[:npts + 1] = True
+        standardize = bool(ci % 2)
+        axis = axis_pos if ci % 4 < 2 else axis_pos - nd
+        ref = None
+        variants = []
+        for dt in (np.float64, np.float32, np.int16, np.int32, np.int64, np.uint8, np.uint16):
+            vals = base
+            if np.dtype(dt).kind == "u":
+                vals = np.abs(base) % (np.iinfo(dt).max + 1)
+            elif np.dtype(dt).kind == "f":
+                vals = base / 8.0
+            variants.append((np.dtype(dt).name, "C", vals.astype(dt)))
+        f64 = variants[0][2]
+        variants += [("float64", lay, a) for lay, a in _layouts(f64, rng)[1:]]
+        variants += [("int16", lay, a) for lay, a in _layouts(variants[2][2], rng)[1:3]]
+        for dname, lay, arr in variants:
+            for mname, mk in (("none", None), ("bool", mbase), ("uint8", mbase.astype(np.uint8)), ("float64", mbase.astype(float)),
+                              ("int64-F", np.asfortranarray(mbase.astype(np.int64)))):
+                if mname not in ("none", "bool") and (dname, lay) not in (("float64", "C"), ("int16", "C")):
+                    continue
+                kind = ("layout:" + lay) if lay != "C" else ("int" if np.dtype(arr.dtype).kind in "iu" else dname)
+                feat = "%s,mask=%s" % (kind, mname)
+                rp = {"shape": list(shape), "axis": axis, "dtype": dname, "layout": lay, "mask_dtype": mname, "standardize": standardize,
+                      "data": arr.tolist(), "mask": None if mk is None else np.asarray(mk).astype(int).tolist(),
+                      "call": "pca(np.array(data, dtype).<layout>, axis, mask=np.array(mask, mask_dtype), standardize=standardize, ncomp=2) "
+                              "vs the same call on np.ascontiguousarray(data, float64)"}
+                ck.count(("pca-dtype", ci, dname, lay, mname), bucket="pca-dtype:" + feat)
+                n_pca += 1
+                try:
+                    r0 = pca(np.ascontiguousarray(arr, dtype=np.float64), axis, mask=None if mk is None else np.ascontiguousarray(mk, dtype=bool),
+                             standardize=standardize, ncomp=2)
+                    r = pca(arr, axis, mask=mk, standardize=standardize, ncomp=2)
+                except Exception as e:  # noqa
+                    ck.fail("pca-dtype/raises/" + kind, "pca on a %s %s array (mask %s) raised %s: %s" % (dname, lay, mname, type(e).__name__, e), rp)
+                    continue
+                for key in ("basis_vectors", "pcnt_var", "basis_projections"):
+                    if np.asarray(r[key]).dtype != np.float64:
+                        ck.fail("pca-dtype/output-dtype/%s" % kind, "pca on a %s array returns %s of dtype %s (float64 for float64 input): the result "
+                                "precision depends on the input dtype" % (dname, key, np.asarray(r[key]).dtype), rp)
+                # float32 data with standardize=True goes through float32 residuals (1e-7 relative); everything else is exact conversion
+                tol = 1e-4 if (dname == "float32" and standardize) else 1e-9
+                sg = _pca_align(np.asarray(r["basis_vectors"]), np.asarray(r0["basis_vectors"]))
+                pscale = max(1.0, float(np.abs(r0["basis_projections"]).max()))
+                bad = None
+                if np.abs(np.asarray(r["pcnt_var"]) - r0["pcnt_var"]).max() > tol * 100:
+                    bad = "pcnt_var"
+                elif np.abs(np.asarray(r["basis_vectors"]) * sg - r0["basis_vectors"]).max() > max(tol, 1e-7):
+                    bad = "basis_vectors"
+                else:
+                    pr = np.moveaxis(np.asarray(r["basis_projections"], dtype=float), axis_pos, 0) * sg[:2].reshape((2,) + (1,) * (nd - 1))
+                    p0 = np.moveaxis(np.asarray(r0["basis_projections"]), axis_pos, 0)
+                    if pr.shape != p0.shape or np.abs(pr - p0).max() > max(tol, 1e-7) * pscale:
+                        bad = "basis_projections (max abs difference %.3g, scale %.3g)" % (
+                            np.abs(pr - p0).max() if pr.shape == p0.shape else float("nan"), pscale)
+                if bad:
+                    ck.fail("pca-dtype/differs-from-float64/%s" % kind, "pca on a %s %s-layout array (mask dtype %s, standardize=%s): %s differs from the "
+                            "result on the float64 C-contiguous copy of the same values" % (dname, lay, mname, standardize, bad), rp)
+    # ------------------------------------------------------------ compute_mask: dtypes and magnitudes
+    n_cm = 0
+    cm_terms, cm_meta = [], []
+    regimes = []
+    for dt in (np.uint8, np.int16, np.uint16, np.int32, np.int64, np.float32, np.float64):
+        d = np.dtype(dt)
+        top = np.iinfo(d).max if d.kind in "iu" else 30000
+        top = min(int(top), 2 ** 20)
+        regimes.append((d, "small", (0, max(2, top // 64)), (top // 8, top // 6)))
+        regimes.append((d, "upper-half", (top // 2 + top // 16, top // 2 + top // 8), (top - top // 8, top - 1)))
+        if d.kind in "if":
+            regimes.append((d, "signed-spread", (-top + 1, -top + top // 8), (top - top // 8, top - 1)))
+    for d, regime, lo, hi in regimes:
+        for rep_i in range(ck.n(2, 6)):
+            shape = [(3, 3, 3), (4, 3, 2), (4, 4, 4)][rep_i % 3]
+            v = np.where(rng.random(shape) < 0.5, rng.integers(lo[0], lo[1] + 1, size=shape), rng.integers(hi[0], hi[1] + 1, size=shape)).astype(d)
+            m, M = [(0.25, 0.875), (0.125, 0.75), (0.2, 0.9)][rep_i % 3]
+            lays = _layouts(v, rng) if rep_i == 0 else [("C", v)]
+            for lay, vv in lays:
+                n_cm += 1
+                narrow_overflow = d.kind in "iu" and (2 * int(np.abs(v.astype(np.int64)).max()) > np.iinfo(d).max
+                                                      or int(v.astype(np.int64).max()) - int(v.astype(np.int64).min()) > np.iinfo(d).max)
+                ck.count(("cm-dtype", d.name, regime, rep_i, lay), bucket="mask-dtype:%s:%s" % (d.name, regime))
+                rp = {"dtype": d.name, "layout": lay, "regime": regime, "shape": list(shape), "m": m, "M": M, "mean_volume": v.ravel().tolist(),
+                      "call": "compute_mask(np.array(mean_volume, dtype).reshape(shape), None, m, M, cc=False, opening=0)"}
+                thr = _ref_threshold(v.ravel().astype(np.float64), m, M, False)
+                want = None if thr is None else np.array([Fraction(int(x)) if d.kind in "iu" else Fraction(*float(x).as_integer_ratio()) for x in v.ravel()]) >= thr
+                try:
+                    got = np.asarray(nm.compute_mask(vv, None, m, M, cc=False, opening=0)).ravel()
+                except ValueError:
+                    got = None
+                if want is None:
+                    continue
+                if got is None or not np.array_equal(got, want):
+                    sig = ("compute_mask/narrow-integer-dtype/arithmetic-overflow" if narrow_overflow
+                           else "compute_mask/dtype-dependence/%s" % ("layout" if lay != "C" else d.name))
+                    ck.fail(sig, "compute_mask on a %s volume (%s values, layout %s): %s; the stated rule (reference >= mid-point %s of the first "
+                            "largest gap in the sorted window, exact arithmetic) selects %d voxels; the float64 copy of the volume gives %s"
+                            % (d.name, regime, lay, "raised ValueError" if got is None else "selects %d voxels" % int(got.sum()), thr, int(want.sum()),
+                               int(np.asarray(nm.compute_mask(v.astype(np.float64), None, m, M, cc=False, opening=0)).sum())), rp)
+                if lay == "C" and rep_i == 0:
+                    cm_terms.append("obools_eqb (compute_mask_raw %s %s %s %s false) %s" % (
+                        cql([frac(float(x)) for x in v.ravel()]), cql([frac(float(x)) for x in v.ravel()]), cq(m), cq(M), _obools(got)))
+                    cm_meta.append((("compute_mask/narrow-integer-dtype/arithmetic-overflow" if narrow_overflow else "compute_mask/model-vs-impl/dtype"), rp))
+    # ------------------------------------------------------------ intersect_masks / compute_mask_sessions: collection size and dtypes
+    n_int = 0
+    im_terms, im_meta = [], []
+    sizes = [1, 2, 5, 127, 128, 129, 200, 300] if not ck.thorough() else [1, 2, 3, 5, 64, 127, 128, 129, 130, 200, 255, 256, 257, 300, 520]
+    for n in sizes:
+        for dt in (np.bool_, np.int8, np.uint8, np.int16, np.int64, np.float32, np.float64):
+            shape = (2, 2, 3)
+            ms = [(rng.random(shape) < 0.93) for _ in range(n)]
+            for mm in ms:
+                mm[0, 0, 0] = True        # one voxel in every mask
+                mm[1, 1, 2] = False       # one voxel in none
+            count = np.sum([mm.astype(np.int64) for mm in ms], axis=0)
+            typed = [mm.astype(dt) for mm in ms]
+            for thr in (0.0, 0.5, 0.75, 1.0):
+                n_int += 1
+                ck.count(("intersect-dtype", n, np.dtype(dt).name, thr), bucket="mask-votes:%s:n%s" % (np.dtype(dt).name, ">=128" if n >= 128 else "<=127"))
+                rp = {"n_masks": n, "dtype": np.dtype(dt).name, "threshold": thr, "shape": list(shape), "votes_per_voxel": count.ravel().tolist(),
+                      "call": "intersect_masks([np.array(m, dtype) for m in masks], threshold=thr, cc=False); masks are random 0/1 arrays, "
+                              "votes_per_voxel is their exact sum", "masks_first_3": [mm.astype(int).ravel().tolist() for mm in ms[:3]]}
+                keep = [t.copy() for t in typed]
+                try:
+                    got = np.asarray(nm.intersect_masks(typed, threshold=thr, cc=False))
+                except Exception as e:  # noqa
+                    ck.fail("intersect_masks/raises/%s" % np.dtype(dt).name, "intersect_masks(%d masks of dtype %s, threshold=%r) raised %s: %s"
+                            % (n, np.dtype(dt).name, thr, type(e).__name__, e), rp)
+                    continue
+                want = (count == n) if thr == 1.0 else (count > Fraction(*thr.as_integer_ratio()) * n)
+                if not np.array_equal(got, want):
+                    ck.fail("intersect_masks/vote-count/n%s/%s" % (">=128" if n >= 128 else "<=127", np.dtype(dt).name),
+                            "intersect_masks(%d masks of dtype %s, threshold=%r, cc=False) keeps voxels %s; with %s votes per voxel the rule "
+                            "count > threshold*n keeps %s" % (n, np.dtype(dt).name, thr, got.astype(int).ravel().tolist(), count.ravel().tolist(),
+                                                              want.astype(int).ravel().tolist()), rp)
+                if any(not np.array_equal(a, b) for a, b in zip(keep, typed)):
+                    ck.fail("intersect_masks/mutates-input-masks", "intersect_masks changed one of the %d input masks (dtype %s)" % (n, np.dtype(dt).name), rp)
+                if dt in (np.bool_, np.int8, np.float64) and thr in (0.5, 1.0) and n in (5, 127, 128, 300):
+                    tn = min(thr, 1 - 1.e-7) * n
+                    im_terms.append("bools_eqb (intersect_sel %s (intersect_counts %s)) %s" % (
+                        cq(tn), clist([czl(mm.astype(int).ravel()) for mm in ms]), clist([cbool(bool(b)) for b in got.ravel()])))
+                    im_meta.append(("intersect_masks/model-vs-impl/n%s" % (">=128" if n >= 128 else "<=127"), rp))
+    # compute_mask_sessions: votes over sessions
+    vols = []
+    for k in range(3):
+        shape = (4, 4, 3)
+        vols.append(np.where(rng.random(shape) < 0.5, rng.integers(0, 5, size=shape), rng.integers(30 + 3 * k, 40, size=shape)).astype(float))
+    single = [np.asarray(nm.compute_mask(v, None, cc=False, opening=0)) for v in vols]
+    cmap = AffineTransform.from_params('ijk', 'xyz', np.eye(4))
+    n_ses = 0
+    for n in ([1, 2, 5, 127, 128, 200] if not ck.thorough() else [1, 2, 5, 64, 127, 128, 129, 200, 256, 300]):
+        imgs = [Image(vols[k % 3], cmap) for k in range(n)]
+        count = np.sum([single[k % 3].astype(np.int64) for k in range(n)], axis=0)
+        for thr in (0.0, 0.5, 0.9):
+            n_ses += 1
+            ck.count(("sessions", n, thr), bucket="mask-votes:sessions:n%s" % (">=128" if n >= 128 else "<=127"))
+            rp = {"n_sessions": n, "threshold": thr, "volumes": [v.ravel().tolist() for v in vols], "shape": [4, 4, 3],
+                  "call": "compute_mask_sessions([Image(volumes[k % 3].reshape(4,4,3), identity) for k in range(n)], threshold=thr, cc=False, opening=0)",
+                  "votes_per_voxel": count.ravel().tolist()}
+            try:
+                got = np.asarray(nm.compute_mask_sessions(imgs, threshold=thr, cc=False, opening=0))
+            except Exception as e:  # noqa
+                ck.fail("compute_mask_sessions/raises", "compute_mask_sessions(%d sessions) raised %s: %s" % (n, type(e).__name__, e), rp)
+                continue
+            want = count > Fraction(*thr.as_integer_ratio()) * n
+            if not np.array_equal(got, want):
+                ck.fail("compute_mask_sessions/vote-count/n%s" % (">=128" if n >= 128 else "<=127"),
+                        "compute_mask_sessions(%d sessions, threshold=%r, cc=False, opening=0) keeps %d voxels; the per-session masks give votes %s "
+                        "and the rule count > threshold*n keeps %d" % (n, thr, int(got.sum()), count.ravel().tolist(), int(want.sum())), rp)
+    # largest_cc / threshold_connect_components: mask dtype
+    for ci in range(ck.n(10, 40)):
+        mk = rng.random((3, 4, 3)) < 0.4
+        mk[0, 0, 0] = True
+        ref = nm.largest_cc(mk)
+        for dt in (np.uint8, np.int16, np.int64, np.float32, np.float64):
+            ck.count(("cc-dtype", ci, np.dtype(dt).name), bucket="mask-dtype:largest_cc")
+            if not np.array_equal(nm.largest_cc(np.asfortranarray(mk.astype(dt))), ref):
+                ck.fail("largest_cc/dtype-dependence/%s" % np.dtype(dt).name, "largest_cc of a %s mask differs from the bool mask" % np.dtype(dt).name,
+                        {"mask": mk.astype(int).ravel().tolist(), "shape": [3, 4, 3], "dtype": np.dtype(dt).name})
+    # ---- correspondence with the Coq model (counts in Z, intensities in Q: no machine-integer range)
+    n_cmp = 0
+    if ck.build is not None and ck.build.ok:
+        for name, tt, mm in (("cmd", cm_terms, cm_meta), ("imd", im_terms, im_meta)):
+            res = ck.coq_bools(HDR_MASK, tt, shard=40, name=name)
+            n_cmp += len(res)
+            ck.cov["traces_validated_against_impl"] += len(res)
+            for ok, (sig, rp) in zip(res, mm):
+                if not ok:
+                    ck.fail(sig, "Coq model (exact rational / unbounded integer arithmetic) and implementation disagree: %s" % rp["call"], rp)
+    ck.section("input_classes", pca_dtype_layout_cases=n_pca, compute_mask_dtype_cases=n_cm, intersect_many_masks_cases=n_int,
+               sessions_cases=n_ses, model_cases=n_cmp, collection_sizes=sizes)
+
+
 def run(ck):
     ck.cov["rule"] = ("slice timing: every registered schedule name x n_slices 1..N x TR set (exhaustive over n in range; "
                       "non-trivial when n>1; distinct by (name,n,TR)).  time_slice_diffs: shapes of 2..5 dims with extents 1..4 "
@@ -1392,3 +1621,4 @@ def run(ck):
     generators(ck)
     pca_oracles(ck)
     pca_designs(ck)
+    input_classes(ck)
